@@ -152,9 +152,15 @@ def roots_replay(ck, c, proxy):
     nontriv = len(kept) >= 3 and len(set(r['c'] for r in kept)) < len(kept)
     ck.case(fp=('roots', str(roots)), nontrivial=nontriv)
     coeffs = [1.0] * (len(roots) + 1)
-    out1 = pt.polyroots01(coeffs)
+    try:
+        out1 = pt.polyroots01(coeffs)
+        out2 = pt.polyroots(coeffs, realroots=True, condition=lambda r: 0 <= r <= 1)
+    except Exception as e:      # noqa
+        ck.disagree(key='polyroots/raises-' + type(e).__name__, site='svgpathtools/polytools.py:polyroots',
+                    what='polyroots raised %r for the root list %s (%s)' % (e, [str(v) for v in vals], roots), case={'roots': roots, 'vals': [str(v) for v in vals]},
+                    expected='the admissible roots, one per cluster', observed=repr(e), driver='polyroots')
+        return
     check_roots_output(ck, roots, vals, out1, 'polyroots01', {'roots': roots, 'vals': [str(v) for v in vals]})
-    out2 = pt.polyroots(coeffs, realroots=True, condition=lambda r: 0 <= r <= 1)
     if list(out2) != list(out1):
         ck.disagree(key='polyroots/polyroots01-differs-from-polyroots', site='svgpathtools/polytools.py',
                     what='polyroots01 != polyroots(realroots, 0<=r<=1)', case={'roots': roots}, expected=list(out2), observed=list(out1), driver='polyroots')
